@@ -95,6 +95,10 @@ Bounded == \A id \in Ids : Len(objs[id].v) <= LMax
 ImmutableConst == [][objs'["c"] = objs["c"]]_vars
 \* C03 / C04: a step changes at most one object (its target); operands are never updated
 AtMostOneChanges == [][Cardinality({id \in Ids : objs'[id] # objs[id]}) <= 1]_vars
+\* C06: every step, seen on the BitStream's (length, position) only, is one of the documented movements of
+\* PosMachine.tla - whose invariant 0 <= pos <= len Apalache proves inductively for streams of any length
+PM == INSTANCE PosMachine WITH len <- Len(objs["a"].v), pos <- objs["a"].p
+RefinesPosMachine == [][PM!Next]_vars
 \* C20: the options change only by the option call, and only the option named
 OptsOnlyBySetopt == [][opts'.ba = opts.ba /\ opts'.mx = opts.mx]_vars
 \* C12: toggling the mode twice without touching anything in between is the identity (no hidden mode state)
